@@ -86,7 +86,7 @@ class Model:
         if isinstance(t, yaqltypes.PythonType) and isinstance(t.python_type, type):
             st = "(Some %d%%nat)" % self.pytags[t.python_type]
         mapping = expressions.MappingRuleExpression(expressions.KeywordConstant("k"), expressions.Constant(1))
-        return "(KProbed %s %s %s %s %s %s %s %s %s)" % (
+        return "(KProbed %s %s %s %s %s %s %s %s %s true)" % (
             gal.boolean(isinstance(t, yaqltypes.LazyParameterType)), gal.natlist(accr), gal.natlist(accc),
             gal.boolean(self._check(t, None)), gal.boolean(self._check(t, expressions.Constant(None))),
             gal.boolean(self._check(t, utils.NO_VALUE)), gal.boolean(self._check(t, _ProbeExpr())),
